@@ -348,11 +348,12 @@ Qed.
 (* The definitional semantics binds a built-in name to an index into its closure table, the VM to an
    entry point and a frame: the two worlds cannot be equal there.  For statements that use the built-in
    names only to call them (nobs), worlds that agree everywhere else give the same value or error and
-   stay in agreement: same global data, same output, same input left. *)
-Theorem C01_statement_worlds_related : forall Bf1 Bf2 n t W1 W2 W1' r,
-  wstmt t = true -> nobs t = true -> wrel Bf1 Bf2 W1 W2 ->
+   stay in agreement: same global data, same output (the same lines added to whatever the two sides had
+   written before, o1 and o2; [] [] : the same output altogether), same input left. *)
+Theorem C01_statement_worlds_related : forall Bf1 Bf2 o1 o2 n t W1 W2 W1' r,
+  wstmt t = true -> nobs t = true -> wrel Bf1 Bf2 o1 o2 W1 W2 ->
   ssem Bf1 n W1 t = Some (W1', r) ->
-  exists W2', ssem Bf2 n W2 t = Some (W2', r) /\ wrel Bf1 Bf2 W1' W2'.
+  exists W2', ssem Bf2 n W2 t = Some (W2', r) /\ wrel Bf1 Bf2 o1 o2 W1' W2'.
 Proof. exact ssem_related. Qed.
 Print Assumptions C01_statement_worlds_related.
 
@@ -361,20 +362,20 @@ Print Assumptions C01_statement_worlds_related.
    the same value or error class and leaves a related world *)
 Theorem C01_statement_sem_vs_vm : forall Bf1 Bf2 t s s' v c m n env st W1' res,
   wstmt t = true -> nobs t = true -> wfcs s -> idle v s c m ->
-  sem_bf Bf1 st -> bcode Bf2 (load_code v s) -> wrel Bf1 Bf2 (wof_s st) (wof v) ->
+  sem_bf Bf1 st -> bcode Bf2 (load_code v s) -> wrel Bf1 Bf2 [] [] (wof_s st) (wof v) ->
   ByteCode t s = CompOk s' ->
   ssem Bf1 n (wof_s st) t = Some (W1', res) ->
   (exists st', eval n t env st = Done st' (ctl_of res) /\ wof_s st' = W1') /\
   exists k, forall fuel, (k < fuel)%nat ->
     agrees (ctl_of res) (snd (Run fuel (load_code v s') true)) /\
     match res with
-    | Ok _ => wrel Bf1 Bf2 W1' (wof (fst (Run fuel (load_code v s') true)))
+    | Ok _ => wrel Bf1 Bf2 [] [] W1' (wof (fst (Run fuel (load_code v s') true)))
     | Fail _ => True
     end.
 Proof.
   intros Bf1 Bf2 t s s' v c m n env st W1' res Hw Hn Hwf Hid Hsb Hbc HR HB HM. split.
   - destruct (eval_stmt Bf1 n t Hw env st W1' res Hsb HM) as (st' & E & HW & _). eauto.
-  - destruct (ssem_related Bf1 Bf2 n t _ _ W1' res Hw Hn HR HM) as (W2' & HM2 & HR').
+  - destruct (ssem_related Bf1 Bf2 [] [] n t _ _ W1' res Hw Hn HR HM) as (W2' & HM2 & HR').
     destruct (bytecode_run_stmt Bf2 t s s' v c m n W2' res Hw Hwf Hid Hbc HB HM2) as [_ [_ [k R]]].
     exists k. intros fuel Hf. specialize (R fuel). destruct R as [_ R]. specialize (R Hf). destruct res as [x|err].
     + destruct R as [v' [m' [R [_ [_ [_ [Hg' _]]]]]]]. rewrite R. split; [reflexivity|]. cbn [fst]. rewrite Hg'. exact HR'.
